@@ -43,3 +43,34 @@ package jsonrpc2
 //@   modifies failedDuring
 //@   assert before c.stream.Write#1: held(c.writeMu)
 //@   ensures !held(c.writeMu)
+
+// ---------------------------------------------------------------------------
+// C18 (call matching part): every call returns the response carrying its id, or its own cancellation.
+// Rely / guarantee argument over the pending map and the reply channels:
+//   - a reply channel carries a ghost tag, chantag(ch): the (key of the) id of the one call it was made for. The tag
+//     is bound once, while the channel is fresh (made by that very call, known to nobody else) - the init clause.
+//   - lock invariant of pendingMu: every channel in the pending map is registered under its own tag.
+//   - channel invariant of chan *Response: every message sent on a channel carries the channel's tag as its id.
+//     run proves it at its send (the channel was looked up under the message's id); Call assumes it at its receive.
+// Not proved: that ids are unique among pending calls (atomic counter), termination / absence of deadlock.
+//@ chaninv *Response(ch, m): m != nil && keyof(m.id) == chantag(ch)
+//@ lockinv conn.pendingMu(c) protects pending: c.pending != nil && forallkey(k, c.pending, chantag(c.pending[k]) == k)
+
+//@ func (*conn) Call [C18]
+//@   requires c != nil && !held(c.writeMu) && !held(c.pendingMu)
+//@   modifies *
+//@   init before c.pendingMu.Lock#1: chantag(rchan) == keyof(id)
+//@   assert before c.pendingMu.Lock#1: chancap(rchan) >= 1
+// the response that is decoded and returned is the one carrying this call's id
+//@   assert return.3: keyof(resp.id) == keyof(id)
+//@   assert return.4: keyof(resp.id) == keyof(id)
+//@   assert return.5: keyof(resp.id) == keyof(id)
+//@   assert return.6: keyof(resp.id) == keyof(id)
+//@   ensures !held(c.writeMu) && !held(c.pendingMu)
+
+//@ func (*conn) run [C18]
+//@   requires c != nil && !held(c.writeMu) && !held(c.pendingMu)
+//@   modifies *
+//@   loop 1 invariant !held(c.writeMu) && !held(c.pendingMu)
+// a Stream hands over decoded messages, never a typed nil pointer (DecodeMessage returns pointers to fresh values)
+//@   assume after c.stream.Read#1: implies(result2 == nil && dyntype(result0, *Response), payload(result0, *Response) != nil)
